@@ -51,8 +51,10 @@ REGISTRATION = {
             "earlier ones succeeded (finding F29, known, by contract: wrapper.go / cache.go oblige the caller to clear the sequence with "
             "Remove(seq, 0, MaxInt32) after an error, and the runner does; patch proposed, not applied). The WrapperCache theorems are "
             "therefore under that guard: wrapper_forward_refines / wrapper_rejected_batch_spec speak about StartForward, the no-guard "
-            "refinement (history_exposes_spec_total) is for a single Causal; F29_wrapper_remove_half_done is the witness and "
-            "wRemoveV_error_unchanged the statement for the proposed repair.",
+            "refinement (history_exposes_spec_total) is for a single Causal; F29_wrapper_remove_half_done is the witness, "
+            "wRemoveV_error_unchanged the statement for the proposed repair, and wrapper_remove_then_clear the contract as a theorem: "
+            "whatever WrapperCache.Remove answered, the prescribed recovery cannot fail and leaves every wrapped cache exactly as a "
+            "plain clear of the sequence would.",
 }
 
 MODULES = ["OllamaVerif.Properties.C06", "OllamaVerif.Tie.C06"]
@@ -106,6 +108,10 @@ THEOREMS = [
     "OllamaVerif.C06.placeBase_shrunk",
     "OllamaVerif.C06.removeV_error_unchanged",
     "OllamaVerif.C06.wRemoveV_error_unchanged",
+    "OllamaVerif.C06.wrapper_remove_then_clear",
+    "OllamaVerif.C06.remove_then_clear",
+    "OllamaVerif.C06.specRemove_then_clear",
+    "OllamaVerif.C06.wrapper_clear_nonvacuous",
     "OllamaVerif.C06.F29_wrapper_remove_half_done",
     "OllamaVerif.C06.remove_ok_of_guard_none",
     "OllamaVerif.C06.removeV_ok_eq",
